@@ -1152,7 +1152,7 @@ static void scenario(const char *params)
     snprintf(g_caddr, sizeof g_caddr, "%s:%s:%d", ctp, g_hostname ? HOSTNAME : "127.0.0.1", g_port);
     xcm_attr_map_destroy(sm);
     mc_observe("xcm_server_a(%s:127.0.0.1:<port>) -> %s", stp, g_server ? "socket" : errname(g_server_errno));
-    if (!g_server && g_server_errno != EINVAL)
+    if (!g_server && g_server_errno != EINVAL && !eb.srv_invalid)
         mc_fail("internal/server-create", "xcm_server_a(%s): %s [%s]", g_saddr, errname(g_server_errno), g_desc);
     mc_count(0, 1);
     enum mc_end end = MC_END_DONE;
